@@ -27,12 +27,14 @@ def check(run):
         ops = [("R", "fd", rng.randrange(2)) for _ in range(rng.randrange(1, 5))] + [("Q", {"cport": 1}, None)] + \
               [("R", "fd", 1), ("R", "fd", 0), ("R", "fd", 1)]
         sessions.append(refexp.make_session(fp, bps, ops, target="fd", compress=rng.choice(["n", "g", "x"])))
+    # every alignment of the closing break / header relative to the encoder's staging buffer
+    sessions += refexp.alignment_sweep(rng, range(0, 2101), rotate=True)
     res = E.run_sessions(run, sessions)
     model = G.run_driver([s[1].abstract for s in sessions]) if run.driver_ok else [None] * len(sessions)
     seen = set()
     for s, r, m in zip(sessions, res, model):
         nrot = s[0].count(" R:")
-        run.case(s[0][:300], nrot > 0)
+        run.case(s[0][:300], nrot > 0, key=s[0])
         run.count("rotations:%d" % min(nrot, 5)); run.count("compression:" + r["comp"])
         bad = E.judge_returns(s, r) + E.judge_files(s, r)
         E.record_failures(run, s, bad, seen)
